@@ -576,5 +576,15 @@ func c04Run(c *core.Ctx) {
 				c.Check(bc)
 			}
 		}
+		// every limit inside the witness (a field that straddles the limit is
+		// visible at a handful of positions only), two fillers
+		for L := 1; L < len(w.Data); L++ {
+			for _, f := range []byte{0x00, 0xFF} {
+				bc.In, bc.Limit, bc.Ints[0] = w.Data, uint32(L), int(f)
+				c.R.Evals++
+				c.R.Transitions++
+				c.Check(bc)
+			}
+		}
 	}
 }
